@@ -102,9 +102,10 @@ class SimFlow(Flow):
         with np.errstate(all="ignore"):
             z, lj = self._fwd(x)
             smooth = self._base_logpdf(z) + lj
+            # outside the support of a bounded data transform the stub's density is zero (never NaN)
+            smooth = np.where(np.isnan(smooth), -np.inf, smooth)
         if self.alpha > 0:
             with np.errstate(all="ignore"):
-                smooth = np.where(np.isnan(smooth), -np.inf, smooth)
                 return np.logaddexp(
                     math.log1p(-self.alpha) + smooth,
                     math.log(self.alpha) + self._log_uniform(x),
